@@ -38,6 +38,8 @@ def run(ctx):
     summ = [x for x in res if x.get("summary")]
     if not summ:
         raise vlib.Inconclusive("resolve driver did not finish:\n" + out[-1500:])
+    if summ[0].get("env"):
+        raise vlib.Inconclusive("%d cases hit an environment failure (descriptor/port exhaustion, overload); nothing is concluded from them" % summ[0]["env"])
     ctx.evaluations += len(cases)
     ctx.traces += len(cases) - summ[0]["bad"]
     for c in cases:
